@@ -912,7 +912,7 @@ pub fn class_prop(c: Code) -> &'static str {
         Entry | RawEntryMut | RawEntry => "C12",
         Iter | Keys | Values | IterMut | ValuesMut | IntoIter | Drain | SIter | SIntoIter | SDrain => "C08",
         Retain | DrainFilter | SRetain | SDrainFilter => "C09",
-        Reserve | TryReserve | ShrinkToFit | ShrinkTo | WithCapacity | SReserve | SShrinkToFit => "C10",
+        Reserve | TryReserve | ShrinkToFit | ShrinkTo | WithCapacity | ExtendHinted | SReserve | SShrinkToFit => "C10",
         CloneSwap | CloneFrom | SCloneSwap => "C11",
         EqSelf | DebugFmt => "C14",
         Probe => "C04",
